@@ -16,7 +16,8 @@ ends the operation with the error the code returns (releasing the lock if it is 
 single step outside the lock.  Sequential semantics = run the segments of one thread to the
 end; concurrent semantics (`sched`) = at each instant any unfinished thread runs its next
 segment.  A step that reads or writes the manager's own fields while the thread does not
-hold `s.mu` sets `fault` (Go: unsynchronised map access, "fatal error: concurrent map …").
+hold `s.mu` sets `fault` (Go: unsynchronised map access, "fatal error: concurrent map …"), and so
+does a write to a map that has not been made yet (run-time panic with `s.mu` held).
 
 The PSK hash is a parameter `H`; nothing here assumes it injective.
 -/
@@ -60,10 +61,12 @@ deriving DecidableEq, Repr
 
 inductive Res where
   | ok | errEmptyName | errLen | errExists | errNoUser | errSame | errDup | errParse | errInvalid
+  | panicked   -- Go run-time panic inside the call (the lock stays held)
 deriving DecidableEq, Repr
 
 structure St where
   pskLen : Nat
+  loaded : Bool                    -- the maps have been made (they are nil until the first load that gets past the shortcut)
   cache : List Entry
   lookup : ULM
   tcp : Option ULM
@@ -144,7 +147,9 @@ def exec (H : Key → Hash) (s : Step) (st : St) (r : Regs) : Out :=
   | .mkConfig => .next st r
   | .guardConfigOk => .next st r   -- aes.NewCipher accepts every key of the checked length
   | .mkCred => .next st r
-  | .cacheSet => .next { touch r st with cache := insert st.cache r.name r.key } r
+  | .cacheSet =>
+    if st.loaded then .next { touch r st with cache := insert st.cache r.name r.key } r
+    else .done .panicked { st with fault := true }   -- assignment to entry in nil map, `s.mu` still held
   | .saveOldHash => .next st { r with oldHash := r.uc.map H }
   | .cacheUpdKey => .next { touch r st with cache := insert st.cache r.name r.key } r
   | .cacheDel => .next { touch r st with cache := erase st.cache r.name } r
@@ -165,6 +170,9 @@ def exec (H : Key → Hash) (s : Step) (st : St) (r : Regs) : Out :=
   | .guardChanged =>
     let st := touch r st
     if r.content = st.cachedContent then .done .ok st else .next st r
+  | .guardChangedLoaded =>
+    let st := touch r st
+    if st.loaded ∧ r.content = st.cachedContent then .done .ok st else .next st r
   | .decode => .next st { r with parsed := decodeDoc r.content }
   | .guardDecodeOk => if r.parsed.isNone then .done .errParse st else .next st r
   | .buildMaps =>
@@ -173,7 +181,7 @@ def exec (H : Key → Hash) (s : Step) (st : St) (r : Regs) : Out :=
     | some (lk, c) => .next st { r with newLookup := lk, newCache := c }
   | .setCachedContent => .next { touch r st with cachedContent := r.content } r
   | .setLookup => .next { touch r st with lookup := r.newLookup } r
-  | .setCache => .next { touch r st with cache := r.newCache } r
+  | .setCache => .next { touch r st with cache := r.newCache, loaded := true } r
   | .liveReplaceTcpLocal => .next { st with tcp := st.tcp.map (fun _ => r.newLookup) } r
   | .liveReplaceUdpLocal => .next { st with udp := st.udp.map (fun _ => r.newLookup) } r
   | .liveReplaceTcpShared => let st := touch r st; .next { st with tcp := st.tcp.map (fun _ => st.lookup) } r
@@ -265,7 +273,7 @@ def runHist (H : Key → Hash) (st : St) (evs : List Ev) : St := evs.foldl (appl
 
 /-- RegisterServer: a fresh ManagedServer, then LoadFromFile -/
 def fresh (pskLen : Nat) (hasTcp hasUdp : Bool) (file : Doc) : St :=
-  { pskLen := pskLen, cache := [], lookup := [], tcp := if hasTcp then some [] else none,
+  { pskLen := pskLen, loaded := false, cache := [], lookup := [], tcp := if hasTcp then some [] else none,
     udp := if hasUdp then some [] else none, file := file, cachedContent := .empty,
     pending := false, saverBusy := false, fault := false }
 
